@@ -320,7 +320,17 @@ def run(prog: Program, rep, tier: str) -> None:
                     n_reset += 1
                     rep.check(tm not in ts, "algorithm-clock-not-reset", fi.qualname, U(node), "only a display's private SimpleTimer is ever reset, never the solve's time-limit Timer", fi.loc(node))
     dsp = prog.func("pygradflow.display.Display.__init__")
-    tv = [U(n.value) for n in own_nodes(dsp.node) if isinstance(n, ast.Assign) and any(is_self_attr(t, "timer") for t in n.targets)]
+    from .common import leaf_stores as _leaf
+    fd_ = facts_for(dsp)
+    tv = []
+    for n in own_nodes(dsp.node):
+        if isinstance(n, ast.Assign) and any(is_self_attr(t, "timer") for t in n.targets):
+            if isinstance(n.value, ast.Name):
+                # the value computed into a local first (an expanded helper's result)
+                ls_ = _leaf(fd_, n.value.id, fd_.stmt_of(n).index)
+                tv += [U(q.stmt.value) for q in ls_] or [U(n.value)]
+            else:
+                tv.append(U(n.value))
     rep.check(set(tv) <= {"None", "SimpleTimer()"} and "SimpleTimer()" in tv, "algorithm-clock-not-reset", dsp.qualname, "self.timer = SimpleTimer()", "a Display creates its own private timer", dsp.loc())
     rep.pin("timer reset sites", n_reset, 1)
     # the linear solver shared between the step and its condition estimate keeps no state across solves
